@@ -528,7 +528,38 @@ func (g *gen) smallArg(t Ty, lo, hi int) *Expr {
 func (g *gen) forRange() Stmt {
 	t := g.intTy("rng-ty")
 	s := Stmt{K: SForRange, T: t, N: g.fresh("k")}
-	switch g.intn(3, "rng-form") {
+	form := g.intn(3, "rng-form")
+	if g.intn(5, "rng-window") == 0 {
+		form = 3
+	}
+	switch form {
+	case 3:
+		// a short window far from zero: across the sign bit of the register for unsigned
+		// types, just below the type's maximum, across zero / just above the minimum for
+		// signed ones (the loop variable stays inside the type: end + step <= max)
+		d := uint64(g.intn(6, "rng-win-len"))
+		var a, b *Expr
+		if t.isSigned() {
+			base := []int64{t.maxI() - 8, -3, t.minI() + 1}[g.intn(3, "rng-win-base")]
+			a, b = litInt(t, base), litInt(t, base+int64(d))
+		} else {
+			half := uint64(1) << (t.bits() - 1)
+			base := []uint64{half - 2, half - 1, t.maxU() - 8}[g.intn(3, "rng-win-base")]
+			a, b = litUint(t, base), litUint(t, base+d)
+			if t == U64 {
+				// literals above MaxInt64 cannot be spelled (see intLit): the end is computed
+				if base > half {
+					base = half - 2
+				}
+				a = litUint(t, base)
+				b = bin("+", t, litUint(t, base), litUint(t, d))
+			}
+		}
+		s.Args = []*Expr{a, b}
+		if g.chance(40, "rng-win-step") {
+			s.Args = append(s.Args, litInt(t, int64(1+g.intn(2, "rng-step"))))
+		}
+		g.cnt["constructed:range-window-far-from-zero"]++
 	case 0:
 		s.Args = []*Expr{g.smallArg(t, 0, 5)}
 	case 1:
